@@ -200,6 +200,22 @@ Example C08_instantiate_twice_example :
   = ([2; 3; 4; 5], [6; 7; 8; 9])%nat.
 Proof. vm_compute. reflexivity. Qed.
 
+(* ---- try/finally regions in general: any nesting of regions around any body that leaves the globals
+   alone (returning or raising) leaves them alone; in particular the skeletons of parse_args with a
+   config file, default_config_files in get_defaults / format_help / parse_args, list files and
+   parse_env, whether the body fails or not. *)
+Theorem C08_regions_restore :
+  forall (A : Type) (gs : list nat) (body : M A),
+    (forall s x, s_g (out_st (body s)) x = s_g s x) ->
+    forall s x, s_g (out_st (regions gs body s)) x = s_g s x.
+Proof. exact (fun A gs body => @regions_restore A gs body). Qed.
+Print Assumptions C08_regions_restore.
+
+Theorem C08_aux_brackets_restore :
+  forall (entry : N) (fails : bool) (s : st) (x : nat), s_g (out_st (aux_run entry fails s)) x = s_g s x.
+Proof. exact aux_restore_thm. Qed.
+Print Assumptions C08_aux_brackets_restore.
+
 (* ---- the guard is satisfiable by non-trivial inputs ------------------------------------------ *)
 (* dump / validate / instantiate of Namespace(k=[[1,2],[3]], t=(1,2)) with a list-of-lists default *)
 Definition ex_parser : parser :=
